@@ -168,6 +168,7 @@ func (r *Run) typedSliceTwins(family, text string, arr []interface{}) {
 
 // ---- histories over documents of different Go types; long parser histories (C13) ----
 func famC13extra(r *Run) {
+	famC13targeted(r)
 	g := &Gen{rng: r.rng, feat: Features{Proj: true, Logic: true, Paren: true, OrderFree: true}}
 	exprs := []string{"name", "id", "[name, id]", "{a: name, b: id, c: tag}", "inner.name", "l[*].name", "lp[*].name", "deep.name", "deep.deep.id",
 		"foo", "bar", "sub.foo", "lp[*].foo", "lp[*].sub.bar", "p.sub.foo", "l[0].bar", "name || id", "tag", "_x", "x", "length(l)", "l[?name].name", "lp[0]"}
@@ -238,6 +239,49 @@ func famC13extra(r *Run) {
 			}
 		}
 		r.count("hist:long-parser")
+	}
+}
+
+// calls that combine, reorder or collect, repeated on one document and on literals
+// held by one compiled expression: every call must answer like a fresh one
+func famC13targeted(r *Run) {
+	var shared interface{}
+	json.Unmarshal([]byte(`{"people":[{"name":"carol","k":3},{"name":"alice","k":1},{"name":"dave","k":4},{"name":"bob","k":2}],
+	 "nums":[3,1,2],"s":["q","p","r"],"o":{"b":1,"a":2},"o2":{"c":3,"b":9},"nested":[[3,1],[2]],"e":{}}`), &shared)
+	pristine := deepCopy(shared)
+	exprs := []string{
+		"merge(o, o2)", "merge(o2, o)", "merge(o, o2, o)", "merge(e, o)", "merge(o, e)", "[merge(o, o2), o]", "merge(o, o2) | [@, @]",
+		"merge(`{\"a\": 1}`, o)", "merge(`{\"a\": 1}`, `{\"b\": 2}`)", "merge(`{}`, o2)", "merge(@, o2).o", "merge(o, {x: nums})",
+		"sort_by(people, &name)[*].name", "sort_by(people, &k)[*].k", "sort(s)", "sort(nums)", "reverse(people)[*].k", "reverse(s)",
+		"max_by(people, &k).name", "min_by(people, &name).k", "map(&name, people)", "nested[]", "sort_by(nested, &@[0])", "to_array(o)",
+		"to_array(nums)", "not_null(people, nums)[0]", "people[?k > `1`] | sort_by(@, &name)[*].k", "sort(`[3, 1, 2]`)", "reverse(`[1, 2, 3]`)",
+		"sort_by(`[{\"a\": 2}, {\"a\": 1}]`, &a)", "values(o)", "keys(o2)", "join(',', s)", "[nums, nums][]", "people[*].name | sort(@)",
+	}
+	for _, text := range exprs {
+		jp, err := jmespath.Compile(text)
+		if err != nil {
+			continue
+		}
+		perm := featuresOf(text).orderExposing
+		for k := 0; k < r.n(4, 12); k++ {
+			r.mark("G-hist-targeted", text, pristine)
+			got := obsOfSearchCompiled(jp, shared)
+			fresh, _ := jmespath.Compile(text)
+			want := obsOfSearchCompiled(fresh, deepCopy(pristine))
+			if canonFor(got, perm, text, pristine) != canonFor(want, perm, text, pristine) {
+				r.violate("G-hist-targeted", text, pristine, fmt.Sprintf("call %d on a used compiled expression and a used document differs from a fresh one", k+1),
+					"got "+got.String()+" want "+want.String())
+				break
+			}
+			if !jsonEqual(shared, pristine) {
+				b, _ := json.Marshal(shared)
+				r.violate("G-hist-targeted", text, pristine, fmt.Sprintf("call %d left the document changed for the calls that follow", k+1), "document now: "+string(b))
+				shared = deepCopy(pristine)
+				break
+			}
+		}
+		r.count("hist:targeted")
+		r.addSearch("G-hist-targeted", text, deepCopy(pristine), modeFor(text, pristine))
 	}
 }
 
